@@ -37,3 +37,18 @@ Theorem C02_every_nested_code_object_is_read_as_cpython_reads_it : forall c code
   view_wf_deep c (PCode code) = true -> to_code_data c code = OK d -> reads_as c (PCode code) (KCode d).
 Proof. exact C02_deep_top. Qed.
 Print Assumptions C02_every_nested_code_object_is_read_as_cpython_reads_it.
+
+(* Tie of the EXTENDED_ARG folding to the current source, for ALL byte strings: the statement-level translation of
+   _blocks._parse_bytes (Gen/SrcLines.v, module ParseBytes, regenerated on every run: an index loop over
+   range(0, len(b), 2) with the accumulators arg / n_args, the C-int wrap, the yielded 5-tuples) computes exactly
+   what the model's parse_bytes computes, and raises IndexError exactly when the model does. *)
+From PCD Require Base.PyImp Gen.Src Gen.SrcLines Proofs.SrcBytesTie.
+Theorem C02_parse_bytes_is_the_source : forall c b,
+  PCD.Gen.SrcLines.ParseBytes.parse_bytes (cfg_extended_arg c) b = parse_bytes c b 0 0 0.
+Proof. intros c b. apply SrcBytesTie.parse_bytes_tie; vm_compute; reflexivity. Qed.
+Print Assumptions C02_parse_bytes_is_the_source.
+
+Example C02_translated_parse_bytes_runs :
+  PCD.Gen.SrcLines.ParseBytes.parse_bytes 144 [144; 1; 144; 2; 100; 3; 9; 0; 144; 255; 144; 255; 144; 255; 100; 255]
+  = OK [(100, 66051, 3, 0, 6); (9, 0, 1, 6, 8); (100, -1, 4, 8, 16)].
+Proof. vm_compute. reflexivity. Qed.
